@@ -286,6 +286,40 @@ func (s *shadow) add(sg geom.Seg) {
 	sub.Segs = append(sub.Segs, sg)
 	s.cur = sg.P3
 }
+// arc follows Path.Arc as documented: an arc of the ellipse with radii rx, ry rotated by rot degrees,
+// from angle theta0 to theta1 (degrees, counter-clockwise when theta0 < theta1), starting at the current
+// point; a difference of 360 degrees or more draws one full turn and the remainder. The arc is requested
+// in pieces of at most 90 degrees. Zero, negative or tiny radii are not followed.
+func (s *shadow) arc(rx, ry, rot, theta0, theta1 float64) {
+	if !(rx >= 0.5 && ry >= 0.5 && rx <= 1e3 && ry <= 1e3) || !finite(rot, theta0, theta1) || math.Abs(theta0) > 1e4 || math.Abs(theta1) > 1e4 {
+		s.tracked = false
+		return
+	}
+	phi, t0, t1 := rot*math.Pi/180, theta0*math.Pi/180, theta1*math.Pi/180
+	pos := func(t float64) Pt {
+		return Pt{rx*math.Cos(t)*math.Cos(phi) - ry*math.Sin(t)*math.Sin(phi), rx*math.Cos(t)*math.Sin(phi) + ry*math.Sin(t)*math.Cos(phi)}
+	}
+	c := s.cur.Sub(pos(t0))
+	d := t1 - t0
+	total := d
+	if math.Abs(d) >= 2*math.Pi {
+		rem := math.Mod(math.Abs(d), 2*math.Pi)
+		if rem < 1e-6 || 2*math.Pi-rem < 1e-6 {
+			s.tracked = false // whether a remainder is drawn is decided by rounding
+			return
+		}
+		total = math.Copysign(2*math.Pi+rem, d)
+	} else if math.Abs(d) < 1e-6 {
+		s.tracked = false
+		return
+	}
+	n := int(math.Ceil(math.Abs(total) / (math.Pi / 2)))
+	for k := 1; k <= n; k++ {
+		t := t0 + total*float64(k)/float64(n)
+		s.add(geom.Seg{Kind: geom.Arc, Rx: rx, Ry: ry, Phi: phi, Large: false, Sweep: d > 0, P3: c.Add(pos(t))})
+	}
+}
+
 func (s *shadow) close() {
 	if s.justMoved {
 		s.tracked = false
@@ -512,7 +546,7 @@ func c10Build(c *c10Case, o *core.Obs) (p *canvas.Path, sh *shadow, ok bool) {
 				}
 			case "Arc":
 				p.Arc(a(0), a(1), a(2), a(3), a(4))
-				sh.tracked = false
+				sh.arc(a(0), a(1), a(2), a(3), a(4))
 			case "Close":
 				p.Close()
 				sh.close()
